@@ -15,7 +15,9 @@ RULE = (
     "programs, (d) character-level mutations of valid programs (deleted/duplicated/replaced/inserted characters, "
     "unterminated /* , unbalanced braces, indexing of lets and single-qubit aliases, no register, two registers), "
     "handed to parse_jaqal_string (anonymous gates, and with an injected native gate set), parse_jaqal_string_header, parse_jaqal_string with relative "
-    "pulse import and run_jaqal_string (pulse modules on disk under vlib/pulses, and missing ones).  Oracle: the "
+    "pulse import under two different import directories, run_jaqal_string, and parse_jaqal_file / run_jaqal_file (the program written next to copies of "
+    "the pulse modules, so the documented default import path applies); pulse modules on disk under vlib/pulses in four layouts (file, package with "
+    "jaqal_gates in __init__, package with a jaqal_gates submodule, module inside a sub-package) and missing ones.  Oracle: the "
     "call returns, raises JaqalError, or raises ImportError when (and only when) the text names a pulse module that "
     "does not exist; nothing else may escape; a deterministic step budget (5000 x (len+100) line events) is "
     "respected; a JaqalParseError carries a position (line a positive int within the text or the end-of-input "
@@ -39,10 +41,19 @@ LEXEMES = (
     + list("<>|{};[],*:")
     + ["\n", "\n", " ", " ", "\t", "//", "/*", "*/", "q", "g", "x", "q[0]", "a.b", ".m", "0", "1", "-2", "3.5", "1e5", ".5", "'01'", "prepare_all", "measure_all"]
 )
-EXISTING_MODULES = {"vlib.pulses.moda", "vlib.pulses.modb", ".moda", ".modb"}
-MISSING_MODULES = ["nosuch.module", ".relmissing", "vlib.pulses.nosuch", "vlib.nosuchpkg.mod"]
+_ABSOLUTE = {"vlib.pulses.moda", "vlib.pulses.modb", "vlib.pulses.pkgc", "vlib.pulses.pkgd", "vlib.pulses.alt.moda"}
+# pulse modules that exist, by the import directory the entry point puts in force: single
+# files, a package whose __init__ holds jaqal_gates, a package with a jaqal_gates submodule
+# (the qscout layout), a module inside a sub-package (dotted relative name)
+EXISTING_MODULES = _ABSOLUTE | {".moda", ".modb", ".pkgc", ".pkgd", ".alt.moda"}
+EXISTING_ALT = _ABSOLUTE | {".moda"}
+MISSING_MODULES = ["nosuch.module", ".relmissing", "vlib.pulses.nosuch", "vlib.nosuchpkg.mod", ".alt.nosuch", ".pkgd.nosuch", ".nosuchpkg.moda"]
+IMPORTING = ("parse-rel", "run", "parse-file", "run-file", "parse-alt")
 
 RUNNABLE = [
+    "from .pkgc usepulses *\nregister q[2]\nsubcircuit { XC q[1] }\n",
+    "from .pkgd usepulses *\nlet t 0.5\nregister q[2]\nsubcircuit 2 { XD q[0] t }\n",
+    "from .alt.moda usepulses *\nregister q[2]\nsubcircuit { XALT q[0]; GP q[0] q[1] }\n",
     "from vlib.pulses.moda usepulses *\nregister q[2]\nprepare_all\nXA q[0]\nGP q[1]\nmeasure_all\n",
     "from .modb usepulses *\nregister q[2]\nsubcircuit { GP q[0] q[1]; XB q[1] }\n",
     "from vlib.pulses.moda usepulses *\nfrom vlib.pulses.modb usepulses *\nlet n 2\nregister q[n]\nmap a q[1]\nloop 2 { subcircuit { XA a; < XB q[0] > } }\n",
@@ -60,7 +71,7 @@ def _valid_text(ch):
 
 def _string_case(ch):
     kind = ch.pick(["junk", "soup", "prefix-char", "prefix-token", "mutate", "mutate", "special", "missing-module"])
-    entry = ch.pick(["parse", "parse", "header", "parse-rel", "run", "parse-inj"])
+    entry = ch.pick(["parse", "parse", "parse", "header", "header", "parse-rel", "parse-rel", "run", "run", "parse-inj", "parse-inj", "parse-file", "run-file", "parse-alt"])
     tokens = None
     if kind == "junk":
         n = ch.int(0, 40)
@@ -150,7 +161,7 @@ def _string_case(ch):
     else:
         mod = ch.pick(MISSING_MODULES)
         text = f"from {mod} usepulses *\nregister q[2]\nprepare_all\nXA q[0]\nmeasure_all\n"
-        entry = ch.pick(["parse-rel", "run", "parse"])
+        entry = ch.pick(["parse-rel", "run", "parse", "parse-file", "run-file", "parse-alt"])
     return {"text": text, "entry": entry, "kind": kind, "tokens": tokens}
 
 
@@ -158,13 +169,14 @@ _BIGNUM = re.compile(r"[0-9]{3,}|[0-9.][eE][-+0-9]")
 _USEP = re.compile(r"from\s+(\.?[A-Za-z_](?:\.?[A-Za-z0-9_])*|\.)\s+usepulses")
 
 
-def _names_missing_module(text):
-    return any(m not in EXISTING_MODULES for m in _USEP.findall(text))
+def _names_missing_module(text, entry="parse-rel"):
+    existing = EXISTING_ALT if entry == "parse-alt" else EXISTING_MODULES
+    return any(m not in existing for m in _USEP.findall(text))
 
 
 def strings(case):
     text, entry = case["text"], case["entry"]
-    if entry == "run" and _BIGNUM.search(text):
+    if entry in ("run", "run-file") and _BIGNUM.search(text):
         # honest execution cost is unbounded in the size of the numbers (2^n states, n
         # iterations): not a termination question, outside this check
         raise Skip()
@@ -182,13 +194,14 @@ def strings(case):
         classes.append("outcome:" + ("JaqalParseError" if tname == "JaqalParseError" else "JaqalError" if is_jaqal else tname))
         if not is_jaqal:
             if tname in ("ImportError", "ModuleNotFoundError"):
-                if entry not in ("parse-rel", "run") or not _names_missing_module(text):
+                if entry not in IMPORTING or not _names_missing_module(text, entry):
                     raise Violation("unexpected-importerror", f"{tname}: {msg}\n{ctx}", where=entry)
             else:
                 raise Violation("foreign-exception", f"{tname}: {msg}\n{ctx}", where=tname)
         if tname == "JaqalParseError":
             line, col = pos
-            lines = text.split("\n")
+            seen = text.replace("\r\n", "\n").replace("\r", "\n") if entry.endswith("-file") else text  # files are read with universal newlines
+            lines = seen.split("\n")
             ok_line = line == "EOF" or (isinstance(line, int) and not isinstance(line, bool) and 1 <= line <= len(lines) + 1)
             ok_col = isinstance(col, int) and not isinstance(col, bool) and col >= 0
             if ok_line and ok_col and isinstance(line, int) and line <= len(lines):
@@ -253,6 +266,26 @@ POOL_TEXTS = [
     ("run", "from .moda usepulses *\nregister q[2]\nXA q[1]\n"),
     ("run", "from vlib.pulses.modb usepulses *\nregister q[2]\nloop 2 { prepare_all; GP q[0] q[1]; measure_all }\n"),
     ("run", "from .moda usepulses *\nprepare_all\nmeasure_all\n"),
+    ("parse-rel", "from .pkgc usepulses *\nregister q[2]\nXC q[0]\n"),
+    ("parse-rel", "from .pkgd usepulses *\nregister q[2]\nXD q[0] 1.5\n"),
+    ("parse-rel", "from .alt.moda usepulses *\nregister q[2]\nXALT q[0]\nGP q[0] q[1]\n"),
+    ("parse-rel", "from .alt.nosuch usepulses *\nregister q[2]\n"),
+    ("parse-rel", "from .pkgd.nosuch usepulses *\nregister q[2]\n"),
+    ("parse-rel", "from vlib.pulses.pkgd usepulses *\nregister q[2]\nXD q[1] 0.25\n"),
+    ("parse-rel", "from vlib.pulses.alt.moda usepulses *\nregister q[2]\nXALT q[1]\n"),
+    ("parse-alt", "from .moda usepulses *\nregister q[2]\nXALT q[0]\nGP q[0] q[1]\n"),
+    ("parse-alt", "from .moda usepulses *\nregister q[2]\nXA q[0]\nGP q[1]\n"),
+    ("parse-alt", "from .modb usepulses *\nregister q[2]\n"),
+    ("parse-alt", "from vlib.pulses.moda usepulses *\nregister q[2]\nXA q[0]\nGP q[1]\n"),
+    ("parse-file", "from .moda usepulses *\nregister q[2]\nXA q[0]\nGP q[1]\n"),
+    ("parse-file", "from .moda usepulses *\nregister q[2]\nGP q[0] q[1]\n"),
+    ("parse-file", "from .alt.moda usepulses *\nregister q[2]\nGP q[0] q[1]\n"),
+    ("parse-file", "from .relmissing usepulses *\nregister q[2]\n"),
+    ("parse-file", "register q[2]\nloop 2 {\n"),
+    ("run-file", "from .modb usepulses *\nregister q[2]\nsubcircuit { GP q[0] q[1]; XB q[1] }\n"),
+    ("run-file", "from .pkgd usepulses *\nregister q[2]\nsubcircuit { XD q[1] 1.0 }\n"),
+    ("run-file", "from .moda usepulses *\nregister q[2]\nXA q[1]\n"),
+    ("run", "from .pkgc usepulses *\nregister q[2]\nsubcircuit { XC q[0] }\n"),
     ("parse-inj", "register q[2]\nXA q[0]\nGP q[1]\n"),
     ("parse-inj", "register q[2]\nXA q[0] q[1]\n"),
     ("parse-inj", "register q[2]\nNoSuch q[0]\n"),
@@ -268,13 +301,25 @@ def _pristine(entry, text):
     return _PRISTINE_CACHE[k]
 
 
+def prepare(part_names, ncpu):
+    """The pool texts' pristine outcomes, computed once (in parallel) before the shards fork."""
+    if "histories" not in part_names:
+        return
+    from concurrent.futures import ThreadPoolExecutor
+
+    todo = [k for k in POOL_TEXTS if k not in _PRISTINE_CACHE]
+    with ThreadPoolExecutor(max_workers=ncpu) as ex:
+        for k, o in zip(todo, ex.map(lambda k: pristine.pristine_outcome(k[0], k[1], REPO_SRC), todo)):
+            _PRISTINE_CACHE[k] = o
+
+
 def _history_case(ch):
     n = ch.int(2, 8)
     items = []
     for _ in range(n):
-        if ch.int(0, 5) == 0:
+        if ch.int(0, 9) == 0:
             c = _string_case(ch)
-            if len(c["text"]) < 400 and not (c["entry"] == "run" and _BIGNUM.search(c["text"])):
+            if len(c["text"]) < 400 and not (c["entry"] in ("run", "run-file") and _BIGNUM.search(c["text"])):
                 items.append([c["entry"], c["text"]])
                 continue
         e, t = ch.pick(POOL_TEXTS)
@@ -285,7 +330,13 @@ def _history_case(ch):
 def histories(case):
     hist = case["history"]
     outcomes = []
-    if any(e == "run" and _BIGNUM.search(t) for e, t in hist):
+    # cases share the shard's interpreter: forget what earlier CASES registered under the
+    # bare module names, so that a case's history is exactly the calls listed in it
+    import sys
+
+    for k in [k for k in sys.modules if k.split(".")[0] in _RELATIVE_TOP]:
+        del sys.modules[k]
+    if any(e in ("run", "run-file") and _BIGNUM.search(t) for e, t in hist):
         raise Skip()  # see `strings`: honest execution cost is unbounded in the size of the numbers
     for entry, text in hist:
         try:
@@ -298,14 +349,41 @@ def histories(case):
         want = _pristine(entry, text)
         if _norm(o) != _norm(want):
             before = [(e, t[:40]) for e, t in hist[:i]]
+            where = f"{entry}:{want[1] if want[0]=='err' else 'ok'}->{o[1] if o[0]=='err' else 'ok'}"
+            if _bare_name_after_relative(hist, i, want):
+                # one root cause, whatever the entry point and whatever happens after the
+                # import wrongly succeeds: named as such so that it is one signature
+                where = "absolute-import-of-bare-name-after-relative-import"
             raise Violation(
                 "outcome-depends-on-history",
                 f"call {i} ({entry}) in-process: {o[:4]}\npristine interpreter: {want[:4]}\nprocessed before: {before}\n--- text:\n{text!r}",
-                where=f"{entry}:{want[1] if want[0]=='err' else 'ok'}->{o[1] if o[0]=='err' else 'ok'}",
+                where=where,
             )
     kinds = [o[0] for o in outcomes]
     interleaved = any(a != b for a, b in zip(kinds, kinds[1:]))
     return {"nontrivial": interleaved, "classes": ["len:%d" % len(hist)] + sorted({"entry:" + e for e, _t in hist}), "key": repr(hist), "sample": {"history": [[e, t[:80]] for e, t in hist], "outcomes": [o[:2] for o in outcomes]}}
+
+
+_RELATIVE_TOP = ("moda", "modb", "pkgc", "pkgd", "alt")
+
+
+def _bare_name_after_relative(hist, i, want):
+    """Call i names, ABSOLUTELY, a bare module name that is not importable (pristine says
+    ModuleNotFoundError for exactly that name) and an earlier call imported the same name
+    RELATIVELY: the recorded finding (a relative import registers the bare name in sys.modules)."""
+    if want[0] != "err" or want[1] != "ModuleNotFoundError":
+        return False
+    m = re.match(r"No module named '([A-Za-z0-9_]+)'", str(want[3]))
+    if not m or m.group(1) not in _RELATIVE_TOP:
+        return False
+    top = m.group(1)
+    mods = _USEP.findall(hist[i][1])
+    if not any(x == top or x.startswith(top + ".") for x in mods):
+        return False
+    for e, t in hist[:i]:
+        if e in IMPORTING and any(x == "." + top or x.startswith("." + top + ".") for x in _USEP.findall(t)):
+            return True
+    return False
 
 
 def _norm(o):
